@@ -15,7 +15,7 @@ func init() { register("C16", "other", checkC16) }
 
 func checkC16(w *World, r *Result) {
 	r.Explanation = "Decides structural necessary conditions: PTH-C16a no append to CustomConstraints is reachable on the path where the select-key directive matched (internal directives never reach SQL), and unique/select-key/constraint classification all read the same comment; FLW-C16b every constant.Value text (ExactString/String) that reaches SQL text passes the double-to-single quote conversion; AGR-C16c custom-query placeholders are numbered i+1 by the range index over the ordered Inputs slice, an input is appended only for a name not seen before, and the generated Go function builds its signature and its argument list in one loop over that same slice; RE-C16 the word regexp of the table-name replacer is exactly maximal runs of \\w and the replacement is an exact map lookup leaving other words unchanged, the enum placeholder regexp has exactly two groups, REFERENCES captures one word that goes through SQLTableName; FLW-C16t a constraint is emitted for the table of the iteration that owns it, with ALTER TABLE only for texts starting with ADD. Does not decide: attribution of comments to structs in grouped declarations, exact rewriting results as strings, typing of inputs."
-	r.Rules = []string{"PTH-C16a", "FLW-C16b", "AGR-C16c", "RE-C16", "FLW-C16t", "PTH-C16o", "CONST-EXACT", "PRINTF", "MUT-AN"}
+	r.Rules = []string{"PTH-C16a", "FLW-C16b", "AGR-C16c", "RE-C16", "FLW-C16t", "PTH-C16o", "PTH-C16w", "CONST-EXACT", "PRINTF", "MUT-AN"}
 	mutAnRule(w, r, func(rel string) bool {
 		return rel == "generator" || rel == "generator/sql" || rel == "generator/go/sqlcrud"
 	})
@@ -30,6 +30,7 @@ func checkC16(w *World, r *Result) {
 	if _, n := constExactRule(w, r, func(rel string) bool { return rel == "generator" }); n < 1 {
 		Undecided("CONST-EXACT: ReplaceEnums no longer prints the constant through the exact printer, or its shape changed")
 	}
+	checkReplacerComplete(w, r)
 }
 
 func checkProcessComments(w *World, r *Result) {
@@ -799,4 +800,129 @@ func mapMembership(info *types.Info, fd *ast.FuncDecl, e ast.Expr) (m, k types.O
 		return nil, nil
 	}
 	return mo, objOf(info, identOf(ke))
+}
+
+// checkReplacerComplete (PTH-C16w): the table-name replacer rewrites a custom text by looking every word up; a name
+// that is not in the table yet stays as it is. The table must therefore be complete before the first text is
+// rewritten: stores into a TableNameReplacer happen in a function that builds and returns it (a constructor), or at
+// least not inside a loop whose body also reaches a use of the replacer (Replace / a lookup) — filling it table by
+// table while texts are rewritten leaves the names of later tables unreplaced.
+func checkReplacerComplete(w *World, r *Result) {
+	isRep := func(t types.Type) bool {
+		return t != nil && strings.HasSuffix(t.String(), "generator.TableNameReplacer")
+	}
+	// functions that use a replacer: call a method on it, or read it by index
+	uses := map[*FuncInfo]bool{}
+	type store struct {
+		fi *FuncInfo
+		as *ast.AssignStmt
+	}
+	var stores []store
+	for _, fi := range sortedFuncs(w) {
+		if fi.Decl.Body == nil {
+			continue
+		}
+		info := fi.Pkg.TypesInfo
+		lhs := map[ast.Expr]bool{}
+		ast.Inspect(fi.Decl.Body, func(x ast.Node) bool {
+			if as, ok := x.(*ast.AssignStmt); ok {
+				for _, l := range as.Lhs {
+					if ix, ok := ast.Unparen(l).(*ast.IndexExpr); ok && isRep(info.TypeOf(ix.X)) {
+						lhs[ix] = true
+						stores = append(stores, store{fi, as})
+					}
+				}
+			}
+			return true
+		})
+		ast.Inspect(fi.Decl.Body, func(x ast.Node) bool {
+			switch v := x.(type) {
+			case *ast.IndexExpr:
+				if !lhs[v] && isRep(info.TypeOf(v.X)) {
+					uses[fi] = true
+				}
+			case *ast.CallExpr:
+				if sel, ok := ast.Unparen(v.Fun).(*ast.SelectorExpr); ok && isRep(info.TypeOf(sel.X)) {
+					uses[fi] = true
+				}
+			}
+			return true
+		})
+	}
+	reachesUse := func(n ast.Node, info *types.Info) bool {
+		found := false
+		ast.Inspect(n, func(x ast.Node) bool {
+			call, ok := x.(*ast.CallExpr)
+			if !ok {
+				return true
+			}
+			if sel, ok := ast.Unparen(call.Fun).(*ast.SelectorExpr); ok && isRep(info.TypeOf(sel.X)) {
+				found = true
+			}
+			if fn := calleeOf(info, call); fn != nil {
+				if cf := w.Funcs[fn]; cf != nil && cf.Decl.Body != nil {
+					for _, c2 := range calleeClosure(w, cf, 4) {
+						if uses[c2] {
+							found = true
+						}
+					}
+				}
+			}
+			return true
+		})
+		return found
+	}
+	for _, st := range stores {
+		fi, info := st.fi, st.fi.Pkg.TypesInfo
+		cons := "store " + normLocals(info, st.as.Lhs[0])
+		pos := w.Pos(st.as.Pos())
+		// constructor: returns a replacer and does not use one
+		ctor := false
+		if res := fi.Decl.Type.Results; res != nil && res.NumFields() == 1 && isRep(info.TypeOf(res.List[0].Type)) && !uses[fi] {
+			ctor = true
+		}
+		if ctor {
+			r.ok("PTH-C16w", fi.Name, cons, pos, "inside the constructor, which returns the complete table before anything is rewritten", true)
+			continue
+		}
+		// the enclosing loops of the store in its function, and the loops around the call sites of that function (two levels)
+		why := ""
+		var check func(cur *FuncInfo, at token.Pos, depth int)
+		check = func(cur *FuncInfo, at token.Pos, depth int) {
+			cinfo := cur.Pkg.TypesInfo
+			ast.Inspect(cur.Decl.Body, func(x ast.Node) bool {
+				var body *ast.BlockStmt
+				switch l := x.(type) {
+				case *ast.RangeStmt:
+					body = l.Body
+				case *ast.ForStmt:
+					body = l.Body
+				}
+				if body != nil && body.Pos() <= at && at <= body.End() && why == "" && reachesUse(body, cinfo) {
+					why = "the loop at " + w.Pos(x.Pos()) + " in " + cur.Name + " both fills the replacer and rewrites texts with it"
+				}
+				return true
+			})
+			if depth >= 3 {
+				return
+			}
+			for _, caller := range sortedFuncs(w) {
+				if caller.Decl.Body == nil {
+					continue
+				}
+				ci := caller.Pkg.TypesInfo
+				ast.Inspect(caller.Decl.Body, func(x ast.Node) bool {
+					if call, ok := x.(*ast.CallExpr); ok && calleeOf(ci, call) == cur.Obj && caller != cur {
+						check(caller, call.Pos(), depth+1)
+					}
+					return true
+				})
+			}
+		}
+		check(fi, st.as.Pos(), 0)
+		r.cond(why == "", "PTH-C16w", fi.Name, cons, pos, "the store is not inside a loop that also rewrites texts", why+": a custom query or constraint of an earlier table that names a later table keeps the Go name of that table")
+	}
+	if len(stores) == 0 {
+		Undecided("PTH-C16w: no store into a TableNameReplacer found")
+	}
 }
